@@ -54,6 +54,53 @@ pub fn judge(input: &[u8], rec: &mut Recorder) {
                 })()),
             ));
         }
+        if wellformed && h.tlvs().all(|t| t.is_ok()) {
+            // the decoded items in two batches: the first k through take(k), the rest through
+            // skip(k) - together every item once (k = 1, all but one, all)
+            let n = h.tlvs().count();
+            for (name, k) in [("decoded-items(take(1)+skip(1))", 1usize), ("decoded-items(take(n-1)+skip(n-1))", n.saturating_sub(1)), ("decoded-items(take(n)+skip(n))", n)] {
+                if n <= 2000 {
+                    outs.push((
+                        name,
+                        io(Builder::new(b[12], b[13])
+                            .write_payload(h.address_bytes())
+                            .and_then(|x| x.write_payloads(h.tlvs().take(k).map(|t| t.unwrap())))
+                            .and_then(|x| x.write_payloads(h.tlvs().skip(k).map(|t| t.unwrap())))
+                            .and_then(|x| x.build())),
+                    ));
+                }
+            }
+            // ... and one by one through nth(i)
+            if n <= 64 {
+                outs.push((
+                    "decoded-items(nth(i))",
+                    io((|| {
+                        let mut x = Builder::new(b[12], b[13]).write_payload(h.address_bytes())?;
+                        for i in 0..n {
+                            if let Some(Ok(t)) = h.tlvs().nth(i) {
+                                x = x.write_payload(t)?;
+                            }
+                        }
+                        x.build()
+                    })()),
+                ));
+            }
+        }
+        // the original length pinned explicitly, at every position of the call chain: it is the
+        // actual length, so the bytes are the same
+        let len16 = h.length() as u16;
+        outs.push((
+            "raw-views+set_length-first",
+            io(Builder::new(b[12], b[13]).set_length(len16).write_payload(h.address_bytes()).and_then(|x| x.write_payload(h.tlv_bytes())).and_then(|x| x.build())),
+        ));
+        outs.push((
+            "raw-views+set_length-between",
+            io(Builder::new(b[12], b[13]).write_payload(h.address_bytes()).map(|x| x.set_length(len16)).and_then(|x| x.write_payload(h.tlv_bytes())).and_then(|x| x.build())),
+        ));
+        outs.push((
+            "raw-views+set_length-last",
+            io(Builder::new(b[12], b[13]).write_payload(h.address_bytes()).and_then(|x| x.write_payload(h.tlv_bytes())).map(|x| x.set_length(len16)).and_then(|x| x.build())),
+        ));
         outs.push((
             "section-iterator(write_payload(tlvs()))",
             io(Builder::new(b[12], b[13]).write_payload(h.address_bytes()).and_then(|x| x.write_payload(h.tlvs())).and_then(|x| x.build())),
